@@ -1117,6 +1117,7 @@ type Result struct {
 	NFetch   int // layers realized during this call
 	// SchedFirst: under a scheduler, the kind of the first fault it granted (0: none)
 	SchedFirst byte
+	Note       string // why the call is reported as hung, if known
 }
 
 func classOf(err error) string {
@@ -1280,6 +1281,8 @@ func (w *World) Index(layers []int, script Script, dead bool) Result {
 // Line is the canonical answer of an index operation.
 func (r Result) Line() string {
 	switch {
+	case r.Hang && r.Note != "":
+		return "hang (" + r.Note + ")"
 	case r.Hang:
 		return "hang"
 	case r.Panic:
